@@ -530,13 +530,15 @@ type goroutinePanic struct {
 	site string
 }
 
+var resumeInRecover = &struct{ x int }{}
+
 func (in *Interp) recoverResult(fr *Frame) Value {
 	// named results are read from the Recover block in real SSA; approximate: zero results
 	if fr.Fn.Recover != nil {
 		// execute recover block synchronously: it only loads named results and returns
 		fr.blk = fr.Fn.Recover
 		fr.pc = 0
-		return Value{K: KInvalid}
+		return Value{K: KInvalid, R: resumeInRecover}
 	}
 	res := fr.Fn.Signature.Results()
 	switch res.Len() {
@@ -549,7 +551,7 @@ func (in *Interp) recoverResult(fr *Frame) Value {
 }
 
 func (in *Interp) finishReturn(g *G, fr *Frame, res Value) {
-	if res.K == KInvalid && fr.Fn.Recover != nil && fr.blk == fr.Fn.Recover {
+	if res.K == KInvalid && res.R == interface{}(resumeInRecover) {
 		return // continue executing the recover block in this frame
 	}
 	g.top = fr.caller
@@ -682,15 +684,15 @@ func (in *Interp) step(g *G) {
 			ng.done = true
 		}
 	case *ssa.MakeChan:
-		n := in.concInt(in.get(fr, ins.Size), "chan size")
+		n := in.concIntT(in.get(fr, ins.Size), ins.Size.Type(), "chan size")
 		in.set(fr, ins, Value{K: KChan, R: &ChanV{cap: int(n)}})
 	case *ssa.Alloc:
 		p := new(Value)
 		*p = zero(ins.Type().(*types.Pointer).Elem())
 		in.set(fr, ins, Value{K: KPtr, R: p})
 	case *ssa.MakeSlice:
-		n := in.concInt(in.get(fr, ins.Len), "makeslice len")
-		c := in.concInt(in.get(fr, ins.Cap), "makeslice cap")
+		n := in.concIntT(in.get(fr, ins.Len), ins.Len.Type(), "makeslice len")
+		c := in.concIntT(in.get(fr, ins.Cap), ins.Cap.Type(), "makeslice cap")
 		if n < 0 || c < n {
 			in.goPanic(g, "makeslice: len out of range")
 			return
@@ -752,6 +754,17 @@ func (in *Interp) step(g *G) {
 	default:
 		unsupported("instruction %T", ins)
 	}
+}
+
+// concIntT concretises an integer operand of static type t: unsigned types are zero-extended.
+func (in *Interp) concIntT(v Value, t types.Type, site string) int64 {
+	if _, signed, ok := intInfo(t); ok && !signed && v.W < 64 {
+		if v.R != nil {
+			return int64(in.Concretize(v.R.(*smt.Term), site) & (uint64(1)<<v.W - 1))
+		}
+		return int64(v.N & (uint64(1)<<v.W - 1))
+	}
+	return in.concInt(v, site)
 }
 
 func (in *Interp) concInt(v Value, site string) int64 {
